@@ -746,7 +746,7 @@ def enumerate_cases(tier):
             for frames in FRAMES:
                 if (pk == "static" and frames != "default") or (pk == "spin4" and cls == "Sphere"):
                     continue
-                for unit in (UNITS if tier == "thorough" else ["m", "mm"]):
+                for unit in (["m", "mm", "km"] if tier == "thorough" else ["m", "mm"]):
                     cases.append({"backend": "matplotlib", "cls": cls, "path": pk, "frames": frames, "unit": unit, "nest": "bare", "anim": False,
                                   "scaled": unit != "m"})
     for cls in ("Cuboid", "Cylinder", "Sphere", "CylinderSegment", "Tetrahedron", "TriangularMesh", "Triangle", "Circle", "Sensor"):
